@@ -358,9 +358,11 @@ class Recorder:
     def wrap_login(self, login):
         return _LoginProxy(login, self.log)
 
-    def snapshot(self) -> dict:
-        """Phase of the most recent connection as the code sees it."""
-        st = self.states[-1]
+    def snapshot(self, st=None) -> dict:
+        """Phase of a connection (default: the most recent one) as the code
+        sees it."""
+        if st is None:
+            st = self.states[-1]
         sess = st._session
         sel = st._selected
         return {
@@ -377,16 +379,26 @@ class Recorder:
 # --------------------------------------------------------------------------
 # driving one command with the client lines it may ask for
 # --------------------------------------------------------------------------
-_CONT = re.compile(rb'(?:^|\r\n)\+ [^\r\n]*\r\n$')
+_SYNC_LIT = re.compile(rb'\{\d+\}\r\n')
+
+
+def _n_cont(out: bytes) -> int:
+    return sum(1 for ln in out.split(b'\r\n') if ln.startswith(b'+ ') or ln == b'+')
 
 
 async def run_exchange(conn, line: bytes, client_lines: list[bytes]) -> tuple[bytes, int]:
     """Send `line` (CRLF added; synchronising literals honoured by Conn.cmd);
-    while the server's output ends with a continuation request and client
-    lines remain, send the next one.  Returns (all output, lines used)."""
+    while the server has asked for more continuations than were answered, no
+    tagged completion has been written yet and client lines remain, send the
+    next one (the request need not be the last thing written: IDLE may push
+    untagged updates right after `+ Idling.`).  Returns (all output, lines
+    used)."""
+    tag = line.split(b' ', 1)[0]
     out = await conn.cmd(line + b'\r\n')
+    literals = len(_SYNC_LIT.findall(line + b'\r\n'))
     used = 0
-    while used < len(client_lines) and not conn.closed and _CONT.search(out):
+    while used < len(client_lines) and not conn.closed \
+            and tagged(out, tag)[0] == 'NONE' and _n_cont(out) - literals > used:
         out += await conn.send(client_lines[used] + b'\r\n')
         used += 1
     return out, used
